@@ -20,7 +20,10 @@ EXPLANATION = (
     'insert position >= producer + 1; the graph-input/-output pseudo id -1 '
     'never reaches an index expression unguarded; no truthiness test on an '
     'id (0 is valid); op-id map maintained after every transformation; '
-    'horizontal grouping of consumers is a partition by equality.'
+    'horizontal grouping of consumers is a partition by equality; decision '
+    'tables of the graph-info generator (own id / producer / one consumer entry '
+    'per consuming op / -1 for outputs) and of the performer\'s id translation '
+    '(producer and consumers under the op-id maps, one entry per entry).'
 )
 LEVEL_TEXT = (
     'Decides necessary conditions of well-formedness that hold or fail '
@@ -437,6 +440,11 @@ def run(ctx):
   r8_op_id_maps(ctx)
   r10_grouping_table(ctx)
   shared.rule_performer_translation(ctx, 'C01.R12')
+  from sa.rules import c19  # pylint: disable=g-import-not-at-top
+  ctx.rule('C01.R13', 'graph info: every tensor records its own id, its producer and one consumer entry per consuming operator', floor=1)
+  gi = ctx.repo.func(f'{c19.TIG}._tensor_info_generator')
+  ctx.instance('C01.R13')
+  c19._graph_info_table(ctx, 'C01.R13', gi)
   # the buffer-sharing guard protects well-formedness too (a constant annotated
   # with two different parameter sets is rejected by the interpreter)
   from sa.rules import c15  # pylint: disable=g-import-not-at-top
